@@ -378,6 +378,18 @@ def run(chk, prog):
                     "the step starts at the configured maximum and is only ever halved", where(adv),
                     "initial value %s, other updates %s" % (C.pretty(first.get("init")) if first else None, bad),
                     function=adv["full"], construct="step monotone")
+    const_locals = {}
+    for s2 in C.walk_stmt(adv["body"]):
+        if s2.get("k") == "Decl":
+            for d in s2["d"]:
+                if d.get("init") is not None and (d.get("t") or "").startswith("const ") and \
+                        C.const_int(d["init"]) is not None:
+                    const_locals[d["id"]] = C.const_int(d["init"])
+
+    def const_local_value(e):
+        e = C.strip_casts(e)
+        return const_locals.get(e.get("id")) if e.get("k") == "Ref" else None
+
     def ret_value(e, vals):
         """Value of a returned boolean expression under the abstract state: True / False / 'lt_end' / None (unknown)."""
         e = C.strip_casts(e)
@@ -399,7 +411,8 @@ def run(chk, prog):
                 return a2
             return None
         if e.get("k") == "Bin" and e["op"] == "<" and (C.member_name(e["a"]) == "_current_time" or
-                                                      dom.key(e["a"]) in time_alias) and C.const_int(e["b"]) == 2 ** 63:
+                                                      dom.key(e["a"]) in time_alias) and \
+                (C.const_int(e["b"]) == 2 ** 63 or const_local_value(e["b"]) == 2 ** 63):
             return "lt_end"
         return None
     ret_nodes = [nd for nd in g.nodes if nd.kind == "return" and nd.ast.get("x") is not None]
@@ -420,7 +433,9 @@ def run(chk, prog):
     tp = u.func("TimeLine::to_physical_time")
     c0, c1, t = S("cf0", real=True), S("cf1", real=True), S("t", real=True)
 
-    def image(fn):
+    def image(fn, depth=0):
+        """Value returned by a conversion function for the integer argument t (const locals substituted, calls to the
+        other conversion functions of the class inlined)."""
         rets = [s for s in C.walk_stmt(fn["body"]) if s.get("k") == "Return"]
         if len(rets) != 1:
             raise AnalysisBroken("%s: expected one return" % fn["full"])
@@ -428,7 +443,23 @@ def run(chk, prog):
         e.vals[("l", fn["params"][0]["id"])] = t
         e.vals[("i", ("m", "_conversion_factors"), 0)] = c0
         e.vals[("i", ("m", "_conversion_factors"), 1)] = c1
-        return conv.conv(rets[0]["x"], e)
+        cv = Converter()
+
+        def hook(call, env2, conv2):
+            fq = call.get("fn") or ""
+            if fq.startswith("TimeLine::") and depth < 3 and len(call.get("a", [])) == 1:
+                cands = [d for d in u.functions.get(fq, []) if d.get("body")]
+                if len(cands) == 1:
+                    inner = image(cands[0], depth + 1)
+                    return inner.xreplace({t: conv2.conv(call["a"][0], env2)})
+            return None
+        cv.call_hook = hook
+        for s2 in fn["body"]["s"]:
+            if s2.get("k") == "Decl":
+                for d in s2["d"]:
+                    if d.get("init") is not None:
+                        e.vals[("l", d["id"])] = cv.conv(d["init"], e)
+        return cv.conv(rets[0]["x"], e)
     n += 1
     chk.require(sp.simplify(image(tpi) - c0 * t) == 0, "T5", "to_physical_time_interval is the linear map cf0 * dt",
                 where(tpi), "returns %s" % image(tpi), function=tpi["full"], construct="interval map")
@@ -481,8 +512,8 @@ def run(chk, prog):
     if "TimeLine" not in W or "TimeLine" not in R:
         raise AnalysisBroken("TimeLine restart writer/reader not found")
     wfn, rfn = W["TimeLine"][0], R["TimeLine"][0]
-    wi = G.Extractor(wfn, "w").run()
-    ri = G.Extractor(rfn, "r").run()
+    wi = G.Extractor(wfn, "w", lib).run()
+    ri = G.Extractor(rfn, "r", lib).run()
     before = len(chk.obligations)
     c09.compare(chk, "T6", "TimeLine", wfn, rfn, wi, ri)
     written, read = c09.members_written(wi), c09.members_written(ri)
